@@ -38,8 +38,8 @@ import random
 PROPERTY = "C16"
 
 MANIFEST = {
-    "technique": "TLA+ specification of AffineTransformation / superimpose broadcasting and exact lattice witnesses for the optimal RMSD (specs/C16, specs/lib/Lattice.tla) model-checked by TLC; TLC's expected outcomes, shapes, affine images and witness bounds replayed against the real functions; recorded executions (noise, outliers, homologs) judged by TLC",
-    "level_text": "TLC enumerates 12 lattice point sets of every rank (single atom, coincident atoms, collinear, planar, mirror-symmetric and chiral rank-3 sets, 5-6 atom chains) x all 48 elements of the cube group (24 rigid copies, 24 mirrored copies) x translations x atom masks x an integer perturbation x 11 array/stack combinations of fixed and mobile, and integer affine transformations for 1-3 models, and decides: the affine algebra (apply = 4x4 matrix form, model-wise action, count refusals), the broadcasting case analysis, and exact rational witness bounds W for the minimal mean squared deviation (0 for rigid copies and lattice-mirror-plane sets, > 0 for mirrored rank-3 sets). Every case is executed against superimpose / AffineTransformation: proper rotation (orthonormal, det +1), RMSD on the masked atoms <= sqrt(W), whole-structure coincidence where the fit is unique, fitted = apply(mobile) = as_matrix form, shapes and refusals. Recorded executions with noise, outliers and lattice 'proteins' (synthetic CCD) are judged by TLC: anchors well-formed, >= min_anchors, fit on the reported anchors <= W.",
+    "technique": "TLA+ specification of AffineTransformation (algebra and bounded histories on one object) / superimpose broadcasting / the anchor paths of the homolog variant and exact lattice witnesses for the optimal RMSD (specs/C16, specs/lib/Lattice.tla) model-checked by TLC; TLC's expected outcomes, shapes, affine images, per-step history results and witness bounds replayed against the real functions in every coordinate form; spec-generated and recorded executions (noise, outliers, homologs) judged by TLC",
+    "level_text": "TLC enumerates 12 lattice point sets of every rank (single atom, coincident atoms, collinear, planar, mirror-symmetric and chiral rank-3 sets, 5-6 atom chains) x all 48 elements of the cube group (24 rigid copies, 24 mirrored copies) x translations x atom masks x an integer perturbation x 11 array/stack combinations of fixed and mobile, and integer affine transformations for 1-3 models, and decides: the affine algebra (apply = 4x4 matrix form, model-wise action, count refusals), the broadcasting case analysis, and exact rational witness bounds W for the minimal mean squared deviation (0 for rigid copies and lattice-mirror-plane sets, > 0 for mirrored rank-3 sets). Every case is executed against superimpose / AffineTransformation: proper rotation (orthonormal, det +1), RMSD on the masked atoms <= sqrt(W), whole-structure coincidence where the fit is unique, fitted = apply(mobile) = as_matrix form, shapes and refusals. Every case names the FORM of the coordinates (float16/32/64, int32/int64 ndarrays, non-contiguous and Fortran-ordered views, AtomArray/AtomArrayStack; fixed structures also displaced by half ticks; half-tick translations for the affine cases): expected values are form-independent. All histories of as_matrix / apply / caller edits of returned arrays / attribute edits up to length 4 (5 thorough) on one transformation object: every accessor result is a function of the current attributes. Spec-generated inputs of the outlier / homolog variants (every single displaced residue, residue patterns without a positively scoring pair = alignment-free fallback, identical sequences, unequal counts, max_iterations = 1) and recorded executions with noise, outliers and lattice 'proteins' (synthetic CCD) are judged by TLC: anchor path, anchors well-formed, >= min_anchors, fit on the reported anchors <= W.",
     "level_note": "DECIDED: lattice witnesses (necessary conditions of optimality), proper rotation, transform consistency, broadcast case analysis, anchor well-formedness. NOT DECIDED: optimality of the fit on noisy / non-congruent inputs below the witness bound W (the optimum needs singular values, which integer arithmetic cannot express) and any rotation outside the cube group; float32 rounding is covered only by tolerances (1e-3 on RMSD, 1e-4 on coordinates, 1e-5 on orthonormality). The combination fixed = stack of m>1 models with a single mobile model is 'Unspecified' (the code refuses it; the documentation neither promises nor excludes it). Trusted: TLC, the TLA+ value parser, numpy.",
 }
 
@@ -623,8 +623,6 @@ def gen_trace(item):
                 M[j] = [M[j][i] + rng.choice([-5, 4, 6]) for i in range(3)]
             ma = rng.choice([1, 3, 3, 5])
             maxit = rng.choice([10, 10, 10, 1, 2])
-            if form == "atoms":
-                form = "f32"
             progress({"op": "outliers", "F": P, "M": M, "min_anchors": ma, "maxit": maxit, "form": form})
             events.append(run_outliers(P, M, ma, maxit, form))
         else:
@@ -690,6 +688,9 @@ def run(ctx):
         "fixed = stack of m>1 models with one mobile model is 'Unspecified' (refusal or model-wise result accepted)",
         "tolerances: RMSD 1e-3 where 0 is expected, msd <= W(1+1e-4)+1e-6 otherwise, 1e-4 on coordinates, 1e-5 on orthonormality/determinant; recorded executions: RMSD^2 <= W + 3e-4",
         "homolog variant: lattice 'proteins' of ALA/GLY/SER residues from the synthetic CCD (/verif/fixtures/ccd), CA atoms on the lattice",
+        "Dom_Form: coordinates are handed over as ndarrays (float16/32/64, int32/int64, contiguous or not) or AtomArray / AtomArrayStack - the documented containers; integer forms hold integer coordinates only (half ticks only with floating forms); plain Python lists are not documented inputs and are not exercised",
+        "histories: operations mat / app / scr (caller edits a returned array in place) / setR, sett (attribute re-assigned) / incc (attribute edited in place), up to 4 (quick) or 5 (thorough) operations",
+        "anchor path of superimpose_homologs decided only where the alignment is not needed: no positively scoring residue pair (PosScore = sign of BLOSUM62 on ALA/GLY/SER, bound to the real matrix by the driver) -> fallback, identical sequences -> identity pairing; everything else is 'open' (C08's subject); fewer backbone atoms than min_anchors: 'open' (the code refuses, undocumented)",
         "trusted: TLC, the TLA+ value parser, numpy",
     ]
     res, states = helpers.dump_states(ctx, "RigidFit", "MC.cfg" if quick else "MC_thorough.cfg",
@@ -789,8 +790,6 @@ def run(ctx):
             removed[k] = removed.get(k, 0) + 1
     ctx.cov["s2_anchor_events"] = len(s2ev)
     ctx.cov["s2_anchor_removed_by_path"] = removed
-    if len(done) > 3000 and not all(removed.get(k) for k in ("outliers:outliers", "homologs:fallback", "homologs:identity")):
-        raise Vacuity(f"no spec-generated anchor case had an anchor removed on some path: {removed}")
     # ---- S3
     ntr = 40 if quick else 2500
     length = 10 if quick else 16
@@ -840,4 +839,9 @@ def run(ctx):
 
     sel = s3traces[:2] + s2traces[:1]
     helpers.binding_selftest(ctx, [[{k: e[k] for k in keep if k in e} for e in t] for t in sel], corrupt)
+    # reach of the anchor family, measured on the reported anchors: meaningful only when the
+    # executions agree with the specification (a disagreement is already the verdict)
+    if len(done) > 3000 and not ctx.violations and not all(
+            removed.get(k) for k in ("outliers:outliers", "homologs:fallback", "homologs:identity")):
+        raise Vacuity(f"no spec-generated anchor case had an anchor removed on some path: {removed}")
     ctx.log(f"S3: {len(s3traces)} recorded traces + {len(s2ev)} spec-generated anchor executions = {nev} events judged by TLC, {nmm} mismatches")
